@@ -80,6 +80,7 @@ struct Ctl {
 	clk::time_point t0;
 	std::string partial;           // result prefix for the fault path
 	int step_at = 0;
+	int cb_inflight = 0;
 };
 static Ctl& ctl() { static Ctl c; return c; }
 static thread_local const char* tl_role = 0;
@@ -125,9 +126,14 @@ static bool controlled(const std::string& role, const std::string& p) {
 extern "C" void vd_delay_point(const char* name) {
 	Ctl& c = ctl();
 	std::unique_lock<std::mutex> lk(c.m);
+	std::string p(name);
+	if (c.tracking) {
+		// callbacks between their entry and the return of eventReady (for the end-of-run quiescence test)
+		if (p == "delay.callback.enter") c.cb_inflight++;
+		else if (p == "delay.callback.delivered") c.cb_inflight--;
+	}
 	if (!c.active) return;
 	std::string role = tl_role ? tl_role : "T";
-	std::string p(name);
 	if (!controlled(role, p)) return;
 	std::string key = role + ":" + p;
 	c.arrivals[key]++;
@@ -559,6 +565,7 @@ static std::string run_replay(long long tickms, const std::string& progs, const 
 			if (!c.cv.wait_until(lk, deadline, [&]() { return c.opdone[k]; })) res = "stuck";
 		}
 		// all operations injected so far must return, all timers must be gone
+		clk::time_point quiet_since;
 		while (res == "ok") {
 			bool alldone = true;
 			{
@@ -567,7 +574,18 @@ static std::string run_replay(long long tickms, const std::string& progs, const 
 					if (S->ops[k].kind != 'W' && S->ops[k].kind != 'Z' && !c.opdone[k]) alldone = false;
 			}
 			int n = S->dq->entries();
-			if (alldone && n == 0) break;
+			if (alldone && n == 0) {
+				// a callback that has taken its entry but not yet delivered (it waits for _delayMutex, or the thread
+				// has not been scheduled yet) still belongs to the run; give up on it after 300 ms
+				int inflight;
+				{
+					std::unique_lock<std::mutex> lk(c.m);
+					inflight = c.cb_inflight;
+				}
+				if (inflight <= 0) break;
+				if (quiet_since == clk::time_point()) quiet_since = clk::now();
+				if (clk::now() - quiet_since > std::chrono::milliseconds(300)) break;
+			} else quiet_since = clk::time_point();
 			if (clk::now() > deadline) { res = "stuck"; break; }
 			std::this_thread::sleep_for(std::chrono::microseconds(300));
 		}
